@@ -11,18 +11,21 @@ Inductive ty :=
 | TBool | TChar | TShort | TInt | TLong | TFloat | TDouble
 | TTr        (* Tracked : class, implicit Tracked(int), every special member user-provided *)
 | TTr2       (* Tracked2: class, explicit Tracked2(int), implicit Tracked2(Tracked) *)
-| TNullopt.  (* nullopt_t: optional<T> is variant<nullopt_t, T> *)
+| TNullopt   (* nullopt_t: optional<T> is variant<nullopt_t, T> *)
+| TPtr       (* char const* : a source type only (string literals); converts to bool (a NARROWING conversion
+                since P1957) and to Str *)
+| TStr.      (* Str : class, implicit Str(const char* p), every special member user-provided *)
 
 Definition ty_id (t : ty) : nat :=
   match t with
   | TBool => 0 | TChar => 1 | TShort => 2 | TInt => 3 | TLong => 4 | TFloat => 5 | TDouble => 6
-  | TTr => 7 | TTr2 => 8 | TNullopt => 9
+  | TTr => 7 | TTr2 => 8 | TNullopt => 9 | TPtr => 10 | TStr => 11
   end%nat.
 
 Definition ty_of_id (n : nat) : ty :=
   match n with
   | 0 => TBool | 1 => TChar | 2 => TShort | 3 => TInt | 4 => TLong | 5 => TFloat | 6 => TDouble
-  | 7 => TTr | 8 => TTr2 | _ => TNullopt
+  | 7 => TTr | 8 => TTr2 | 10 => TPtr | 11 => TStr | _ => TNullopt
   end%nat.
 
 Definition ty_eqb (a b : ty) : bool := Nat.eqb (ty_id a) (ty_id b).
@@ -33,7 +36,7 @@ Proof. intros a b; destruct a, b; cbv; split; intro H; try reflexivity; discrimi
 Lemma ty_eqb_refl : forall a, ty_eqb a a = true.
 Proof. intro a; apply ty_eqb_eq; reflexivity. Qed.
 
-Definition is_class (t : ty) : bool := match t with TTr | TTr2 => true | _ => false end.
+Definition is_class (t : ty) : bool := match t with TTr | TTr2 | TStr => true | _ => false end.
 (* trivially copyable / destructible: selects the defaulted special members of variant *)
 Definition trivial (t : ty) : bool := negb (is_class t).
 Definition is_int_ty (t : ty) : bool :=
@@ -43,7 +46,8 @@ Definition is_arith (t : ty) : bool := is_int_ty t || is_fp_ty t.
 Definition is_scalar (t : ty) : bool := is_arith t.
 
 (* Values are integers: bool 0/1, integer types the value, float/double TWICE the value,
-   classes their int payload. *)
+   classes their int payload, a char const* the length of the string it points to, Str the
+   length of the string it was constructed from. *)
 Definition MOVED : Z := 99.
 
 (* what a move construction / move assignment leaves in the source object *)
@@ -68,6 +72,8 @@ Definition ics (src dst : ty) : option nat :=
   else match dst with
        | TTr => if is_arith src then Some 3%nat else None
        | TTr2 => match src with TTr => Some 3%nat | _ => None end
+       | TStr => match src with TPtr => Some 3%nat | _ => None end
+       | TBool => match src with TPtr => Some 2%nat | _ => None end     (* boolean conversion *)
        | _ => None
        end.
 
@@ -77,6 +83,7 @@ Definition int_bits (t : ty) : Z :=
 (* [dcl.init.list]: narrowing for a non-constant source expression, decided by the types *)
 Definition narrowing (src dst : ty) : bool :=
   if is_fp_ty src && is_int_ty dst then true
+  else if ty_eqb src TPtr && ty_eqb dst TBool then true        (* P1957: pointer -> bool is narrowing *)
   else if is_int_ty src && is_fp_ty dst then true
   else if is_fp_ty src && is_fp_ty dst then (match src, dst with TDouble, TFloat => true | _, _ => false end)
   else if is_int_ty src && is_int_ty dst then
@@ -191,13 +198,21 @@ Inductive rop :=
 | RWrite (t : bool) (v : Z)          (* w : if (x) *x = v   (T not const) *)
 | RSelf (t : bool)                   (* f *)
 | RCellSet (c : nat) (v : Z)         (* W : cells[c] = v, not through any optional *)
-| RFromOpt (t : bool)                (* o : x = O(as_const(src)) : optional<T&>(optional<U> const&), U = T0 *)
-| RFromRef (t : bool)                (* x : x = O(as_const(z))   : optional<T&>(optional<U> const&), U = T0& *)
+| RFromOpt (t : bool)                (* o, i, O : x = O(as_const(src)) / O(src) : optional<T&>(optional<U> const&), U = T0 *)
+| RFromRef (t : bool)                (* x, X : x = O(as_const(z)) / O(z)        : optional<T&>(optional<U> const&), U = T0& *)
+| RAssignOpt (t : bool)              (* q, Q : x = as_const(src) / x = src      : operator=(optional<U> const&), U = T0 *)
+| RAssignRef (t : bool)              (* y, Y : x = as_const(z) / x = z          : operator=(optional<U> const&), U = T0& *)
 | RZBind (c : nat)                   (* z : z = cell *)
 | RZNull                             (* Z : z.reset() *)
 | RSrcAssign (v : Z)                 (* S : src = T0(v) *)
 | RSrcEmplace (v : Z)                (* E : src.emplace(v) *)
 | RSrcReset.                         (* R : src.reset() *)
+
+(* the four ref-qualified overloads of a member function / the value category of an argument:
+   & (lvalue), const& (const lvalue), && (rvalue), const&& (const rvalue) *)
+Inductive qual := QL | QC | QR | QCR.
+(* a move constructor can steal only from a non-const rvalue *)
+Definition is_rv (q : qual) : bool := match q with QR => true | _ => false end.
 
 (* unexpected<E>: objects a, b of unexpected<E> and c of unexpected<E2> *)
 Inductive uop :=
